@@ -3,8 +3,8 @@ import random, warnings
 from .. import core, gen, ref
 from . import cu
 
-MODULES = ['DsdVerif.Props.C20', 'DsdVerif.Props.PyLegacy2', 'DsdVerif.Props.PyLegacyReg', 'DsdVerif.Props.PyLegacyInit']
-GEN_FILES = ['LegacyIupac', 'IupacTables', 'LegacyWrappers', 'PyLegacy', 'PyLegacyReg', 'PyLegacyInit', 'PyFuncs']
+MODULES = ['DsdVerif.Props.C20', 'DsdVerif.Props.PyLegacy2', 'DsdVerif.Props.PyLegacyReg', 'DsdVerif.Props.PyLegacyInit', 'DsdVerif.Props.PyLegacySeq']
+GEN_FILES = ['LegacyIupac', 'IupacTables', 'LegacyWrappers', 'PyLegacy', 'PyLegacyReg', 'PyLegacyInit', 'PyFuncs', 'PyLegacySeq', 'PyIupac']
 THEOREM_NAMES = ['legacy_iupac_agree_dna', 'legacy_iupac_agree_rna', 'legacy_wobble_total']
 THEOREMS = ['Dsd.C20.' + t for t in THEOREM_NAMES] + ['Dsd.C20L.' + t for t in ('legacy_canon_eq', 'legacy_rotations_spec', 'legacy_dup_iff')] + \
     ['Dsd.C20.legacy_wrappers_delegate', 'Dsd.C20F.legacy_rotate_once_eq', 'Dsd.C20F.legacy_construct_eq',
@@ -28,6 +28,8 @@ THEOREMS = ['Dsd.C20.' + t for t in THEOREM_NAMES] + ['Dsd.C20L.' + t for t in (
         'py_do_memorycheck_eq', 'py_canonical_form_eq', 'py_canonical_form_cached', 'py_legacy_full_canon_eq', 'py_canonical_form_restores')]
 # the whole legacy constructor as written in the source equals LegacyFull.construct; a refused construction leaves NAMES and MEMORY as they were
 THEOREMS += ['Dsd.PyLegacyInit.' + t for t in ['py_init_eq', 'py_refused_leaves_nothing', 'py_legacy_construct_eq', 'py_canonicalForm_keeps_name']]
+# the legacy SequenceConstraint as written in the source (14 methods translated; PARTIAL: only complement is proved equal to the translated current function)
+THEOREMS += ['Dsd.PyLegacySeq.' + t for t in ['py_seq_init_eq', 'py_seq_complement_eq', 'py_seq_wc_codes_dna', 'py_seq_wc_codes_rna']]
 ASSUMPTIONS = [
     'the legacy SequenceConstraint tables are transcribed from the dictionaries inside its methods (Gen/LegacyIupac.lean, evaluated with '
     'T -> T and T -> U) and compared with the current tables by kernel-decided theorems',
@@ -306,6 +308,8 @@ def run(res, proof):
     # the whole legacy constructor as translated from the working tree (Gen/PyLegacyInit.lean; no equality theorem yet): ID / NAMES / MEMORY after every construction
     from .pylegacyinit_stream import source_derived_pylegacyinit
     core.run_stream(source_derived_pylegacyinit, res, proof)
+    from .pylegacyseq_stream import source_derived_pylegacyseq
+    core.run_stream(source_derived_pylegacyseq, res, proof)
     res.sample({'seq': 'a b + a', 'sst': '(.+)'})
 
 
